@@ -155,7 +155,9 @@ fn resolve_cli(root_dir: &Path, force: bool) -> Value {
     } else {
         vec!["metadata", "--format", "json", "--format-version", "2"]
     };
-    let existed = root_dir.join("Veryl.lock").exists();
+    let lock_path = root_dir.join("Veryl.lock");
+    let before = read_opt(&lock_path);
+    let existed = before.is_some();
     let r = vcore::util::run_cmd(
         bin.to_str().unwrap(),
         &args,
@@ -173,7 +175,6 @@ fn resolve_cli(root_dir: &Path, force: bool) -> Value {
     }
     let ok = r.code == Some(0);
     out.insert("ok".into(), json!(ok));
-    out.insert("modified".into(), Value::Null);
     if !ok {
         let text = format!("{}{}", r.stdout, r.stderr);
         let kind = if text.contains("MetadataError::VersionNotFound") || text.contains(" is not found") {
@@ -189,7 +190,20 @@ fn resolve_cli(root_dir: &Path, force: bool) -> Value {
         );
         return Value::Object(out);
     }
-    // the table as a later process would load it
+    // Both callers write Veryl.lock exactly when update() reported a
+    // modification (or there was no lock file): an untouched file means "not
+    // modified", and then the file is NOT the table of this run (it may still
+    // carry the names of before an alias was renamed) - nothing to observe.
+    let after = read_opt(&lock_path);
+    if existed {
+        out.insert("modified".into(), json!(after != before));
+        if after == before {
+            return Value::Object(out);
+        }
+    } else {
+        out.insert("modified".into(), Value::Null);
+    }
+    // the table as the next process will load it
     match Metadata::load(root_dir.join("Veryl.toml")) {
         Ok(md) => match Lockfile::load(&md) {
             Ok(lf) => {
